@@ -110,6 +110,17 @@ def repro_loopsum_capture():
     return (not ok), f'(sum_i Inflate(a[i], i, 3))**2 at a=[1,2,3] -> {r.tolist()} (expected [1,4,9])'
 
 
+def repro_loopconcat_capture():
+    ev = _ev()
+    c = ev.constant
+    i = ev.loop_index('i', 2)
+    X = ev._inflate(c(numpy.array([-.5, 0.])), i + 1, c(4), 0)   # (4,2): row i+1 holds the vector
+    f = ev.Sum(ev.loop_concatenate(X, i)) * ev.Sum(ev.loop_sum(X, i))
+    r = ev.eval_once(f, _optimize=False)
+    ok = numpy.allclose(r, [0., .25, .25, 0.])
+    return (not ok), f'sum(loop_concatenate(X_i)) * sum(loop_sum(X_i)), X_i = Inflate(v, i+1, 4) -> {r.tolist()} (expected [0, .25, .25, 0])'
+
+
 def repro_bool_empty_insertaxis():
     ev = _ev()
     b = ev.Argument('b', (ev.constant(3),), bool)
@@ -166,7 +177,7 @@ def repro_cast_bool_inflate():
 
 
 C01_REPRODUCERS = {'C01-cast-bool-inflate-overlap': repro_cast_bool_inflate, 'C01-choose-takediag-axis': repro_choose_takediag, 'C01-power-power-abs': repro_power_abs, K1: repro_k1,
-                   'C01-takediag-inflated-diagonal': repro_takediag_inflated_diagonal, 'C01-loopsum-take-capture': repro_loopsum_capture,
+                   'C01-takediag-inflated-diagonal': repro_takediag_inflated_diagonal, 'C01-loopsum-take-capture': repro_loopsum_capture, 'C01-loopconcatenate-take-capture': repro_loopconcat_capture,
                    'C01-bool-any-all-empty-insertaxis': repro_bool_empty_insertaxis}
 
 
